@@ -374,4 +374,34 @@ func funcInfoOf(name string) funcInfo {
 //@   loop 1 invariant[C05] frame: routeOK(c) && c.funcs == old(c.funcs)
 //@   ensures[C05,C16] still-in-function: c.funcs == old(c.funcs) && result == nil && routeOK(c)
 
+// specWord: how the Batch converter writes one argument of an external command (quoted when it is a
+// %reference% or contains a blank, bare otherwise).
+func specWord(a string) string {
+	if strings.HasPrefix(a, "%") || strings.Contains(a, " ") {
+		return "\"" + a + "\""
+	}
+	return a
+}
+
+// specCommand: one command of a pipeline, its name followed by its n words.
+func specCommand(name string, n int, words string) string {
+	if n > 0 {
+		return name + " " + words
+	}
+	return name
+}
+
+// An external call chain: command k is its name and its words in order, the commands are joined
+// left to right by " | "; as a statement the pipeline is the one emitted call line, as a value
+// the capture helper is flagged.
+//@ func (*converter).AppCall
+//@   loop 2 invariant[C18] words-so-far: len(argsCopy) == len(call.args) && forall(k, 0, rangeindex + 1, argsCopy[k] == specWord(call.args[k])) && forall(k, rangeindex + 1, len(argsCopy), argsCopy[k] == call.args[k])
+//@   loop 1 invariant[C18] commands-so-far: calls(strings_Join) == rangeindex + 1 && len(callStrings) == rangeindex + 1
+//@   loop 1 invariant[C18] words-of-each-command: forall(k, 0, calls(strings_Join), arg(strings_Join, k, 1) == " " && len(arg(strings_Join, k, 0)) == len(callsCopy[k].args) && forall(i, 0, len(callsCopy[k].args), arg(strings_Join, k, 0)[i] == specWord(callsCopy[k].args[i])))
+//@   loop 1 invariant[C18] command-k-is-name-and-words: forall(k, 0, len(callStrings), callStrings[k] == specCommand(callsCopy[k].name, len(callsCopy[k].args), res(strings_Join, k, 0)))
+//@   loop 1 invariant[C18] frame: sameExcept(c, old(c)) && routeOK(c)
+//@   ensures[C18] commands-in-order-joined-by-pipes: calls(strings_Join) >= len(calls) + 1 && arg(strings_Join, len(calls), 1) == " | " && len(arg(strings_Join, len(calls), 0)) == len(calls) && forall(k, 0, len(calls), arg(strings_Join, k, 1) == " " && len(arg(strings_Join, k, 0)) == len(calls[k].args) && forall(i, 0, len(calls[k].args), arg(strings_Join, k, 0)[i] == specWord(calls[k].args[i])) && arg(strings_Join, len(calls), 0)[k] == specCommand(calls[k].name, len(calls[k].args), res(strings_Join, k, 0)))
+//@   ensures[C18] statement-form-runs-the-pipeline: !valueUsed ==> appended(specBlock(c), old(specBlockBefore(c)), "call " + res(strings_Join, calls(strings_Join) - 1, 0)) && len(result0) == 3 && result0[0] == "" && result0[1] == "" && result0[2] == "0" && err == nil
+//@   ensures[C16,C18] value-form-flags-the-capture-helper: valueUsed ==> c.appCallHelperRequired
+
 var _ = strings.TrimSpace
